@@ -328,6 +328,9 @@ class Machine:
         m = am["m"]
         dims = list(m["dims"])
         if op == "diff":
+            if len(x) > 2 and not x[2]:
+                # the non-default option: invalid cells take part in the stencils; the result's validity is still the operand's
+                return a.diff(dims[x[0] - 1], order=x[1], restrict2valid=False)
             return a.diff(dims[x[0] - 1], order=x[1])
         if op == "grad":
             return a.grad
